@@ -793,6 +793,21 @@ func (t *glTr) stmt(ind int, s ast.Stmt) {
 		}
 		return
 	}
+	// `x = x.m(arg)` on a pointer the function walks with: Rewrite key "x = x.m($1)", `$1` = the translated argument
+	if as, ok := s.(*ast.AssignStmt); ok && as.Tok == token.ASSIGN && len(as.Lhs) == 1 && len(as.Rhs) == 1 {
+		if call, ok := as.Rhs[0].(*ast.CallExpr); ok && len(call.Args) == 1 {
+			key := glText(as.Lhs[0]) + " = " + glText(call.Fun) + "($1)"
+			if rw, ok := t.fn.Rewrite[key]; ok {
+				c, p := t.expr(call.Args[0])
+				v := t.fresh()
+				t.line(ind, "let %s := %s", v, glBind(c, p))
+				for _, l := range strings.Split(strings.ReplaceAll(rw, "$1", v), "\n") {
+					t.line(ind, "%s", l)
+				}
+				return
+			}
+		}
+	}
 	switch x := s.(type) {
 	case *ast.EmptyStmt:
 		t.line(ind, "pure ()")
@@ -877,11 +892,12 @@ func (t *glTr) stmt(ind int, s ast.Stmt) {
 			return
 		}
 		if as, ok := x.Init.(*ast.AssignStmt); ok && len(as.Rhs) == 1 {
-			if _, isTA := as.Rhs[0].(*ast.TypeAssertExpr); isTA {
-				// `if v, ok := x.(T); ok && v.M() { … }`: the whole test is one outside fact (Tuples)
-				key := glSrc(x.Init) + "; " + glSrc(x.Cond)
-				tup, ok := t.fn.Tuples[key]
-				if !ok || len(tup) != 1 {
+			_, isTA := as.Rhs[0].(*ast.TypeAssertExpr)
+			key := glSrc(x.Init) + "; " + glSrc(x.Cond)
+			if tup, has := t.fn.Tuples[key]; isTA || (has && len(tup) == 1) {
+				// `if v, ok := x.(T); ok && v.M() { … }` (or a lookup through a walked pointer): the whole
+				// test is one fact given in Tuples
+				if !has || len(tup) != 1 {
 					t.die(x, "type test %q (add it to Tuples)", key)
 				}
 				t.line(ind, "if %s then", tup[0])
@@ -1118,6 +1134,19 @@ func (t *glTr) assign(ind int, x *ast.AssignStmt) {
 		return
 	}
 	if len(x.Lhs) == 2 && len(x.Rhs) == 1 && x.Tok == token.DEFINE {
+		if ie, ok := x.Rhs[0].(*ast.IndexExpr); ok && t.mapKind(ie.X) == "zero" {
+			// v, ok := m[k] on a map[string]string: v is the value or "", ok its presence
+			m, _ := t.expr(ie.X)
+			k, pk := t.expr(ie.Index)
+			kv := t.fresh()
+			v, okn := glText(x.Lhs[0]), glText(x.Lhs[1])
+			t.line(ind, "let %s := %s", kv, glBind(k, pk))
+			t.define(x, v)
+			t.define(x, okn)
+			t.line(ind, "let mut %s := (Glb.Go.mapGetD %s %s)", t.nm(v), m, kv)
+			t.line(ind, "let mut %s := (Option.isSome (Glb.Go.mapGet %s %s))", t.nm(okn), m, kv)
+			return
+		}
 		if ie, ok := x.Rhs[0].(*ast.IndexExpr); ok && t.mapKind(ie.X) == "fun" {
 			// v, ok := m[k] where the map is given as a lookup function k ↦ Option _ : v is the Option, ok its isSome
 			m, _ := t.expr(ie.X)
@@ -1310,6 +1339,19 @@ func (t *glTr) assigned(nodes ...ast.Node) []string {
 			continue
 		}
 		ast.Inspect(nd, func(n ast.Node) bool {
+			if as, ok := n.(*ast.AssignStmt); ok && as.Tok == token.ASSIGN && len(as.Lhs) == 1 && len(as.Rhs) == 1 {
+				if call, ok := as.Rhs[0].(*ast.CallExpr); ok && len(call.Args) == 1 {
+					if rw, ok := t.fn.Rewrite[glText(as.Lhs[0])+" = "+glText(call.Fun)+"($1)"]; ok {
+						for _, l := range strings.Split(rw, "\n") {
+							f := strings.Fields(l)
+							if len(f) >= 2 && (f[1] == ":=" || f[1] == "←") {
+								add(f[0])
+							}
+						}
+						return false
+					}
+				}
+			}
 			if st, ok := n.(ast.Stmt); ok {
 				if rw, ok := t.fn.Rewrite[glSrc(st)]; ok {
 					for _, l := range strings.Split(rw, "\n") {
@@ -1771,7 +1813,7 @@ func glTranslateUnit(u glUnit) {
 		}
 		for _, fld := range decl.Type.Params.List {
 			for _, n := range fld.Names {
-				if !f.Ptr[n.Name] && glParamAssigned(decl.Body, n.Name) {
+				if !f.Ptr[n.Name] && glParamAssigned(decl.Body, n.Name) && glWordIn(f.Args, n.Name) {
 					t.line(1, "let mut %s := %s", n.Name, n.Name)
 				}
 			}
@@ -1839,6 +1881,17 @@ func glIotaConst(f *ast.File, name string) (string, bool) {
 		}
 	}
 	return "", false
+}
+
+// glWordIn: does the Lean binder list mention the identifier (a Go parameter that is modelled differently,
+// e.g. a walked pointer, has no Lean parameter of its own)
+func glWordIn(args, name string) bool {
+	for _, w := range strings.FieldsFunc(args, func(r rune) bool { return !(r == '_' || r >= '0' && r <= '9' || r >= 'a' && r <= 'z' || r >= 'A' && r <= 'Z') }) {
+		if w == name {
+			return true
+		}
+	}
+	return false
 }
 
 func glIdentUsed(body *ast.BlockStmt, name string) bool {
@@ -2112,4 +2165,28 @@ func extractGoLean() {
 		}
 		glTranslate(glUnit{Module: "TrSelfTest", NS: "Glb.Tr.SelfTest", Funcs: fs})
 	}
+
+	// TrParseRoute (C04): route registration. The trie is mutated through the pointer `node`
+	// (nextNodeOrNew walks down, creating nodes); value semantics cannot express that, so the pointer is
+	// the pair (root, keys walked so far) and the five pointer statements are rewrite rules over
+	// Glb/Go/LibRouter.lean; the fragment loop, its index arithmetic, the classification of fragments and
+	// the three error exits are translated from the source.
+	glTranslate(glUnit{
+		Module: "TrParseRoute", NS: "Glb.Tr.Router",
+		Imports: []string{"Glb.Go.LibRouter", "Glb.Generated.TrStrutil"},
+		Funcs: []glFunc{
+			{File: "httpd/tree.go", Name: "parseRoute",
+				Args: "(root : Glb.Router.Node) (keys : List Bytes) (path method : Bytes) (id : Glb.Router.RouteId)",
+				Ret:  "(Glb.Router.Node × List Bytes × Int × Option Bytes)",
+				Env:  map[string]string{"methodTagMap": "Glb.Generated.methodTagMap", "routeParam": "Glb.Generated.routeParam", "routeParamAny": "Glb.Generated.routeParamAny", "nil": "none"},
+				MapVars: map[string]string{"methodTagMap": "zero"}, Thread: []string{"root", "keys"},
+				Libs:    map[string]glLib{"errors.New": {"some", true, 1}},
+				Tuples:  map[string][]string{"_, ok = node.next[methodTag]; ok": {"(Glb.Go.LibRouter.hasChildAt root keys methodTag)"}},
+				Rewrite: map[string]string{
+					"node = node.nextNodeOrNew($1)":        "root := Glb.Go.LibRouter.ensureAt root keys $1\nkeys := keys ++ [$1]",
+					"node.info = info":                     "root := Glb.Go.LibRouter.setInfoAt root keys id",
+					"node.paramNameList = paramNameList":   "root := Glb.Go.LibRouter.setParamsAt root keys paramNameList",
+				}},
+		},
+	})
 }
